@@ -850,7 +850,8 @@ class Emitter:
         key = (self.cur_name, self.loopn); self.loopn += 1
         txt = self.loop_contracts.get(key, '')
         if txt: self.used_loop_contracts.add(key)
-        return ''.join('  ' * ind + l.strip() + '\n' for l in txt.strip().splitlines()) if txt else ''
+        # (-DY_NO_LOOP_CONTRACTS: the fallback decision of check.py re-decides the function contract by complete unwinding)
+        return ('#ifndef Y_NO_LOOP_CONTRACTS\n' + ''.join('  ' * ind + l.strip() + '\n' for l in txt.strip().splitlines()) + '#endif\n') if txt else ''
 
     def st_ForStmt(self, n, ind):
         p = '  ' * ind; c = n['inner']
